@@ -63,6 +63,20 @@ class Tx(ast.NodeTransformer):
                 args=[f.value, node.args[0]], keywords=[]), node)
         return node
 
+    def visit_Compare(self, node):
+        """x in c / x not in c: membership of a *symbolic* x in a set / dict goes through ==
+        (hashing would concretise x); everything else is the ordinary operator"""
+        self.generic_visit(node)
+        if len(node.ops) == 1 and isinstance(node.ops[0], (ast.In, ast.NotIn)):
+            right = node.comparators[0]
+            if isinstance(right, ast.Set) and all(isinstance(e, ast.Constant) for e in right.elts):
+                right = ast.Tuple(elts=list(right.elts), ctx=ast.Load())
+            call = ast.Call(func=ast.Name(id='__sx_in__', ctx=ast.Load()), args=[node.left, right], keywords=[])
+            if isinstance(node.ops[0], ast.NotIn):
+                call = ast.UnaryOp(op=ast.Not(), operand=call)
+            return ast.copy_location(call, node)
+        return node
+
     def visit_JoinedStr(self, node):
         """f'...{x}...' -> __sx_fstr__('...', (x, conv, spec), ...) so that symbolic strings survive"""
         self.generic_visit(node)
